@@ -11,7 +11,7 @@ use winter_crypto::{
     DefaultRandomCoin, ElementHasher, Hasher, MerkleTree,
 };
 use winter_math::{add_in_place, batch_inversion, fft, fields::f128, fields::f64, get_power_series, get_power_series_with_offset, mul_acc, FieldElement, StarkField};
-use winter_prover::{matrix::{ColMatrix, RowMatrix}, Prover, StarkDomain, TraceTable};
+use winter_prover::{matrix::{ColMatrix, RowMatrix}, Prover, StarkDomain};
 use winter_utils::Serializable;
 
 use crate::common::{arg_value, Rng};
@@ -122,6 +122,13 @@ fn prover_part<H: ElementHasher<BaseField = f64::BaseElement> + Sync + Send>(nam
             exempt: 2,
             mode: "std".into(),
             neg: vec![],
+            aux_degs: vec![1, 2],
+            aux_rands: 2,
+            lagrange: true,
+            aux_asserts: vec![
+                AsrSpec { kind: "single".into(), col: 0, first: n - 1, stride: 0, count: 1 },
+                AsrSpec { kind: "single".into(), col: 1, first: 0, stride: 0, count: 1 },
+            ],
         };
         let sc = Scenario {
             id: n as u64,
@@ -133,16 +140,18 @@ fn prover_part<H: ElementHasher<BaseField = f64::BaseElement> + Sync + Send>(nam
             seed: 5,
             free_tail: true,
             corrupt: None,
+            aux_corrupt: None,
             expect: String::new(),
             corruptions: vec![],
+            aux_corruptions: vec![],
             stmt: None,
             ccols: 0,
             layers: 0,
         };
         let cols = shape.build_trace::<B>(5, true, false);
         let inputs = ShapeInputs::from_trace(&shape, &cols);
-        let prover = ShapeProver::<B, H, DefaultRandomCoin<H>> { options: crate::stark::options_of(&sc), shape: shape.clone(), claim: None, _p: PhantomData };
-        let proof: Proof = prover.prove(TraceTable::init(cols)).unwrap();
+        let prover = ShapeProver::<B, H, DefaultRandomCoin<H>> { options: crate::stark::options_of(&sc), shape: shape.clone(), claim: None, aux_corrupt: None, _p: PhantomData };
+        let proof: Proof = prover.prove(crate::shape::ShapeTrace::new(&shape, cols)).unwrap();
         // deterministic parts: all commitments (trace, constraint, FRI layers, remainder) and the out-of-domain frame
         out.insert(format!("prover/{name}/{n}/commitments"), dig(&proof.commitments.to_bytes()));
         out.insert(format!("prover/{name}/{n}/ood_frame"), dig(&proof.ood_frame.to_bytes()));
